@@ -197,6 +197,11 @@ func (s *memoryStore) SetNode(n store.Node) error {
 	s.mu.Lock()
 	defer s.mu.Unlock()
 	node := memNode{Node: n}
+	if existing, ok := s.nodes[n.ID]; ok {
+		// Keep tracking the node's peers when it is re-registered (same as
+		// the badger driver, where peers are stored under their own key).
+		node.peers = existing.peers
+	}
 	if node.peers == nil {
 		node.peers = map[store.NodeID]time.Time{}
 	}
